@@ -113,7 +113,54 @@ let kinds line =
   | "gni" :: f :: _ -> out (AGetnameinfo (z_of_string f)) false
   | _ -> failwith ("bad kinds case " ^ line)
 
+(* completion wrappers.  case: "<api> <fill byte> <run|cancel|busy> <work result>"
+   output: "cbs=<0|1> st=<status|-> unreg=<n>" *)
+let api_case line =
+  match split_on ' ' line with
+  | [api; fill; fate; wres] ->
+      let a = match api with
+        | "work" -> CWork true | "work0" -> CWork false | "rnd" -> CRandom
+        | "gai" -> CGetaddrinfo | "gni" -> CGetnameinfo
+        | s when String.length s > 3 && String.sub s 0 3 = "fs_" -> CFs
+        | _ -> failwith "api" in
+      let b = int_of_string fill in
+      (* the int the field would hold if nobody initialised it: four copies of the fill byte *)
+      let g = let v = b lor (b lsl 8) lor (b lsl 16) lor (b lsl 24) in
+              if v >= 0x80000000 then v - 0x100000000 else v in
+      let f = match fate with "run" -> FRun | "cancel" -> FCancelled | "busy" -> FBusy | _ -> failwith "fate" in
+      let (n, st) = complete_api a (z_of_int g) (z_of_string wres) f in
+      Printf.sprintf "cbs=%d st=%s unreg=%d" (match st with None -> 0 | Some _ -> 1)
+        (match st with None -> "-" | Some z -> zs z) (int_of_nat n)
+  | _ -> failwith ("bad api case " ^ line)
+
+(* fork.  case: "<nthreads> <k>": parent with k slow requests submitted, workers take what the cap
+   allows; fork; the child submits one slow and one CPU request on a fresh loop and runs until
+   nobody can move.  output: "slow=<0|1> cpu=<0|1> v<verdict>" *)
+let fork_case fixed line =
+  match split_on ' ' line with
+  | [n; k] ->
+      let n = int_of_string n and k = int_of_string k in
+      let c = { c_n = nat_of_int n; c_loops = nat_of_int 1; c_beh = (fun _ -> []) } in
+      let pprog = [List.init k (fun _ -> OSubmit KSlow)] in
+      let psched = List.init k (fun _ -> (nat_of_int 0, O)) @
+                   List.init n (fun w -> (nat_of_int (1 + w), O)) in
+      let (_, parent) = run_log c (init c pprog) psched in
+      let cprog = [[OSubmit KSlow; OSubmit KCpu]] in
+      let child0 = if fixed then fork_child_fixed c parent cprog else fork_child c parent cprog in
+      let rounds = List.concat (List.init 12 (fun _ -> List.init (n + 1) (fun t -> (nat_of_int t, O)))) in
+      let (log, fin) = run_log c child0 rounds in
+      let dones = List.concat (List.map (fun (_, e) -> match e with
+                    | Some evs -> List.filter_map (function EDone (r, _, _) -> Some (int_of_nat r) | _ -> None) evs
+                    | None -> []) log) in
+      Printf.sprintf "slow=%d cpu=%d v%s" (if List.mem 0 dones then 1 else 0) (if List.mem 1 dones then 1 else 0)
+        (zs (verdict c fin))
+  | _ -> failwith ("bad fork case " ^ line)
+
 let () =
+  if Array.length Sys.argv > 1 && (Sys.argv.(1) = "api" || Sys.argv.(1) = "fork" || Sys.argv.(1) = "forkfix") then begin
+    let f = match Sys.argv.(1) with "api" -> api_case | "fork" -> fork_case false | _ -> fork_case true in
+    iter_lines (fun l -> print_string (try f l with Failure m -> "bad " ^ m); print_newline ())
+  end else
   if Array.length Sys.argv > 1 && Sys.argv.(1) = "kinds" then
     iter_lines (fun l -> print_string (try kinds l with Failure m -> "bad " ^ m); print_newline ())
   else
